@@ -10,10 +10,10 @@
      arim.im.tfm.TfmResult.__init__     (tfm.py:319-322)    tfm_result   (assert res.shape == grid.shape)
      arim.im.tfm.contact_tfm            (tfm.py:381-428)    contact_tfm_nd   (grid of any shape, the shape
                                                             assertion on lookup_times, reshape, TfmResult)
-     arim.im.tfm.tfm_for_view           (tfm.py:431-467)    tfm_for_view_nd, tfm_for_view_mem
+     arim.im.tfm.tfm_for_view           (tfm.py:431-467)    tfm_for_view_nd (times_width_ok), tfm_for_view_mem
      FocalLaw.__init__ / weigh_timetraces on an explicit timetrace_weights argument (tfm.py:204-219, 283-304):
                                                             weights_x, bcast_weights, contact_tfm_x
-     arim.ut.default_timetrace_weights  (ut.py:114-154)     default_weights_z  (any integer index values)
+     arim.ut.default_timetrace_weights  (ut.py:114-154)     default_weights_z  (any integer index values; empty = ValueError)
      memory order of Rays.times, `.T`, np.ascontiguousarray, np.asfortranarray (ray.py:452-471, tfm.py:206-208):
                                                             arr2, a_get, a_rows, a_T, a_ascontiguous, a_asfortran
      arim.geometry.points_in_rectbox    (geometry.py:1396-1446)   in_rectbox, points_in_rectbox
@@ -108,18 +108,24 @@ Definition take_cols {A} (idx : list nat) (t : list (list A)) : option (list (li
 
 (* ==========================================================================
    ut.default_timetrace_weights(tx, rx) on index VALUES (Python ints and numpy integers of any
-   dtype hash and compare by value inside the tuples of the set `elements_pairs`):
+   dtype hash and compare by value inside the tuples of the set `elements_pairs`), ut.py:142-154:
        if len(tx) != len(rx): raise ValueError
+       numtimetraces = len(tx)
        elements_pairs = {*zip(tx, rx)}
-       weights = np.ones(n); for this_tx, this_rx, w in zip(tx, rx, weights):
-           if (this_rx, this_tx) not in elements_pairs: w[...] = 2.0 *)
+       timetrace_weights = np.ones(numtimetraces)
+       for this_tx, this_rx, w in zip(tx, rx, np.nditer(timetrace_weights, op_flags=["readwrite"])):
+           if (this_rx, this_tx) not in elements_pairs: w[...] = 2.0
+   np.nditer refuses a zero-sized operand ("ValueError: Iteration of zero-sized operands is not
+   enabled", ut.py:150): on two EMPTY lists the call raises, it does not return an empty array. *)
 Definition zpair_mem (p : Z * Z) (l : list (Z * Z)) : bool :=
   existsb (fun q => Z.eqb (fst p) (fst q) && Z.eqb (snd p) (snd q)) l.
 
 Definition default_weights_z (tx rx : list Z) : option (list Z) :=
   if length tx =? length rx then
+    let numtimetraces := length tx in
     let elements_pairs := combine tx rx in
-    Some (map (fun p => if zpair_mem (snd p, fst p) elements_pairs then 1%Z else 2%Z) elements_pairs)
+    if numtimetraces =? 0 then None      (* np.nditer(np.ones(0)): ValueError *)
+    else Some (map (fun p => if zpair_mem (snd p, fst p) elements_pairs then 1%Z else 2%Z) elements_pairs)
   else None.
 
 (* ==========================================================================
@@ -148,6 +154,10 @@ Section Arr2.
   (* np.array(rows) : C order *)
   Definition a_of_rows (p : nat) (t : list (list A)) : arr2 A := mkArr2 (length t) p false (concat t).
 End Arr2.
+
+(* every row of a (numelements, w) table given as nested lists has w = p entries (a table with no
+   row has any width) *)
+Definition times_width_ok {A} (p : nat) (t : list (list A)) : bool := forallb (fun row => length row =? p) t.
 
 (* ==========================================================================
    outcomes of the calls with an explicit timetrace_weights argument *)
@@ -202,17 +212,29 @@ Section Glue.
       end
     else None.
 
+  (* tfm_for_view on a grid of shape s = grid.shape.  Rays.times has shape (numelements, w); `.T`
+     has w rows, and the code never looks at grid.numpoints before the final reshape:
+       FocalLaw.__init__ : assert lookup_times_tx.shape[0] == lookup_times_rx.shape[0]   (tfm.py:214)
+                           -> AssertionError when the two tables have different widths
+       res = das.delay_and_sum(...)      one value per COLUMN of the ray times
+       res.reshape(grid.shape)           (tfm.py:466) -> ValueError unless that width = prod(s)
+     so the call raises as soon as a width differs from prod(s).  A nested list does not know its
+     width when it has no row and MinPlus.transpose is GIVEN the number of columns (it keeps at most
+     that many: it would silently drop the columns in excess), hence the widths are checked here
+     before the core `tfm_for_view` is called with numgridpoints = prod(s). *)
   Definition tfm_for_view_nd (sc : scheme) (ns : Z) (dt t0 : T) (fill : D)
              (s : list nat) (tx_rays rx_rays : rays T)
              (amps : option (@amp_tables D)) (ss : list (scan D)) : option (ndt D (length s)) :=
-    match tfm_for_view N V sc ns dt t0 fill (shape_size s) tx_rays rx_rays amps ss with
-    | None => None
-    | Some res =>
-        match np_reshape (dzero V) s res with
-        | None => None
-        | Some img => if tfm_result s s then Some img else None
-        end
-    end.
+    if times_width_ok (shape_size s) (r_times tx_rays) && times_width_ok (shape_size s) (r_times rx_rays) then
+      match tfm_for_view N V sc ns dt t0 fill (shape_size s) tx_rays rx_rays amps ss with
+      | None => None
+      | Some res =>
+          match np_reshape (dzero V) s res with
+          | None => None
+          | Some img => if tfm_result s s then Some img else None
+          end
+      end
+    else None.
 
   (* ---- tfm_for_view on ray times with their memory order:
        lookup_times_tx = view.tx_path.rays.times.T ; FocalLaw: np.ascontiguousarray(lookup_times_tx) *)
